@@ -16,7 +16,7 @@ using namespace sim;
 
 namespace {
 
-enum OpKind { OP_PUSH = 0, OP_REKEY = 1, OP_DELIVER = 2, OP_GIANT = 3 };
+enum OpKind { OP_PUSH = 0, OP_REKEY = 1, OP_DELIVER = 2, OP_GIANT = 3, OP_GIANT_MSG = 4 };
 enum Fault {
     F_INTACT = 0, F_DROP, F_DUP, F_DELAY, F_TRUNC, F_EXTEND, F_FLIP_TAGBYTE, F_FLIP_CT, F_FLIP_MAC,
     F_AD_FLIP, F_AD_DROP, F_AD_EXTEND, F_AD_SWAP, F_CROSS, F_REPLAY_OLD, F_NFAULTS
@@ -29,6 +29,7 @@ struct Op {
     int s = 0;
     // push
     int tag = 0; uint32_t mlen = 0, adlen = 0; bool null_outlen = false, null_ad = false;
+    bool craft = false; // the first 16 message bytes are chosen (with knowledge of the key) so that the Poly1305 accumulator ends in [p, 2^130)
     // deliver
     uint32_t pick = 0; int fault = F_INTACT; uint32_t fa = 0, fb = 0; int to = 0; bool consume = true;
     bool null_mlen = false, null_tag = false;
@@ -176,6 +177,11 @@ struct Exec {
         it.tag = op.tag >= 256 ? (unsigned char) (op.tag - 256) : tags[op.tag % 5]; // >= 256: an application-defined tag byte ("any tags")
         content(it.m, op.mlen, mix64(0x3000 + (uint64_t) (op.s % plan.sessions), s.log.size()));
         content(it.ad, op.adlen, mix64(0x4000 + (uint64_t) (op.s % plan.sessions), s.log.size()));
+        if (op.craft && it.m.size() >= 16) {
+            int v = ref::craft_poly_edge(s.model_push, it.m.data(), it.m.size(), it.ad.data(), it.ad.size(), it.tag);
+            if (v >= 0) res.count("probe.poly1305_accumulator_in_final_reduction_band");
+            else if (v == -2) { res.fail("harness-model", "craft", "crafted message does not produce the intended accumulator", step); return; }
+        }
         ref::StreamState before = s.model_push;
         ref::Bytes expect = ref::stream_push(s.model_push, it.m.data(), it.m.size(), it.ad.data(), it.ad.size(), it.tag);
         if (ref::ld32(before.nonce) == 0xffffffffu) res.count("probe.counter_wrap_rekey");
@@ -239,6 +245,48 @@ struct Exec {
         munmap(ad, adlen);
         res.count("probe.giant_ad_checked");
         dg.add(out.p, out.n);
+    }
+
+    // one self-contained push+pull of a single chunk of more than 2^32 bytes (the documented limit is ~2^38).  The message
+    // is a read-only anonymous mapping (zero pages); chunk and decrypted copy are lazily mapped.  Thorough tier, once per
+    // binary.  Head and tail of the chunk are compared with the documented construction (keystream blocks 2.. of the
+    // chunk's ChaCha20-IETF stream); the authenticator is checked by the round trip.
+    void do_giant_msg(const Op &op) {
+        size_t mlen = ((size_t) 1 << 32) + 5 + (op.mlen % 200);
+        unsigned char *m = (unsigned char *) mmap(nullptr, mlen, PROT_READ, MAP_PRIVATE | MAP_ANONYMOUS | MAP_NORESERVE, -1, 0);
+        unsigned char *c = (unsigned char *) mmap(nullptr, mlen + 17, PROT_READ | PROT_WRITE, MAP_PRIVATE | MAP_ANONYMOUS | MAP_NORESERVE, -1, 0);
+        unsigned char *d = (unsigned char *) mmap(nullptr, mlen, PROT_READ | PROT_WRITE, MAP_PRIVATE | MAP_ANONYMOUS | MAP_NORESERVE, -1, 0);
+        if (m == MAP_FAILED || c == MAP_FAILED || d == MAP_FAILED) { res.count("probe.giant_message_skipped_no_address_space"); return; }
+        unsigned char key[32], hdr[24];
+        ref::Bytes k, h;
+        content(k, 32, 0x9101); content(h, 24, 0x9102);
+        memcpy(key, k.data(), 32);
+        g_src.reset(plan.content_seed);
+        g_src.script.assign(h.begin(), h.end());
+        crypto_secretstream_xchacha20poly1305_state st_push, st_pull;
+        ref::StreamState model;
+        { LibScope l; crypto_secretstream_xchacha20poly1305_init_push(&st_push, hdr, key); crypto_secretstream_xchacha20poly1305_init_pull(&st_pull, hdr, key); }
+        ref::stream_init(model, hdr, key);
+        unsigned long long clen = 0, dlen = 0; unsigned char tag = 9; int rc, rc2;
+        { LibScope l; rc = crypto_secretstream_xchacha20poly1305_push(&st_push, c, &clen, m, mlen, nullptr, 0, 0); }
+        if (rc != 0 || clen != mlen + 17) res.fail("push-failed", "giant-message", "push of a " + std::to_string(mlen) + "-byte message returned " + std::to_string(rc) + ", clen " + std::to_string(clen), step);
+        // message is all zero: ciphertext byte i is keystream byte i of the stream starting at block 2
+        const size_t W = 4096;
+        unsigned char ks[W];
+        size_t offs[3] = {0, (((size_t) 1 << 32) - W / 2) & ~(size_t) 63, (mlen - W) & ~(size_t) 63};
+        for (size_t q = 0; q < 3 && !res.violated; q++) {
+            memset(ks, 0, W);
+            ref::chacha20_ietf_xor(ks, ks, W, model.k, (uint32_t) (2 + offs[q] / 64), model.nonce);
+            size_t n = std::min(W, mlen - offs[q]);
+            if (memcmp(c + 1 + offs[q], ks, n) != 0) res.fail("chunk-mismatch", "giant-message", "ciphertext of a " + std::to_string(mlen) + "-byte message differs from the documented construction around offset " + std::to_string(offs[q]), step);
+        }
+        { LibScope l; rc2 = crypto_secretstream_xchacha20poly1305_pull(&st_pull, d, &dlen, &tag, c, mlen + 17, nullptr, 0); }
+        if (!res.violated && (rc2 != 0 || dlen != mlen || tag != 0)) res.fail("rejected-genuine", "giant-message", "genuine chunk of " + std::to_string(mlen + 17) + " bytes rejected (rc " + std::to_string(rc2) + ")", step);
+        for (size_t q = 0; q < 3 && !res.violated; q++) for (size_t i = 0; i < 64; i++) if (d[offs[q] + i] != 0) { res.fail("wrong-plaintext", "giant-message", "decrypted giant message differs", step); break; }
+        if (!res.violated && memcmp(st_push.k, st_pull.k, 32) + memcmp(st_push.nonce, st_pull.nonce, 12) != 0) res.fail("state-desync", "giant-message", "states differ after a giant chunk", step);
+        dg.add(c, 64); dg.add(c + mlen, 17);
+        munmap(m, mlen); munmap(c, mlen + 17); munmap(d, mlen);
+        res.count("probe.giant_message_checked");
     }
 
     void do_rekey(const Op &op) {
@@ -438,6 +486,7 @@ struct Exec {
             case OP_REKEY: do_rekey(op); break;
             case OP_DELIVER: do_deliver(op); break;
             case OP_GIANT: do_giant(op); break;
+            case OP_GIANT_MSG: do_giant_msg(op); break;
             }
             res.steps++;
         }
@@ -530,6 +579,10 @@ struct C09 {
             Op g; g.kind = OP_GIANT; g.mlen = (uint32_t) ops.below(300); g.adlen = (uint32_t) ops.below(200);
             p.ops.push_back(g);
         }
+        if (thorough && run % 400 == 0 && (run % 40000000000ULL) / 400 == 6) { // once per binary: a single chunk of more than 4 GiB
+            Op g; g.kind = OP_GIANT_MSG; g.mlen = (uint32_t) ops.below(200);
+            p.ops.push_back(g);
+        }
         std::vector<int> pushed((size_t) p.sessions, 0);
         for (size_t i = 0; i < nops; i++) {
             Op op;
@@ -544,6 +597,7 @@ struct C09 {
                 op.mlen = gen_len(ops, thorough);
                 op.adlen = ops.chance(1, 2) ? 0 : (uint32_t) ops.pick<uint32_t>({1, 3, 15, 16, 17, 32, 33, 64, 80, 127, 255, 256, 257, 300, 511, 513, 1000, 4099});
                 op.null_outlen = ops.chance(1, 5);
+                op.craft = ops.chance(1, 8);
                 op.null_ad = ops.chance(1, 3);
                 pushed[(size_t) op.s]++;
             } else if (c < 47) {
@@ -582,8 +636,10 @@ struct C09 {
                 q["op"] = "push"; q["s"] = o.s; q["tag"] = o.tag; q["mlen"] = o.mlen; q["adlen"] = o.adlen;
                 if (o.align) q["align"] = o.align;
                 if (o.null_outlen) q["null_outlen"] = true;
+                if (o.craft) q["craft_poly1305_edge"] = true;
                 if (o.null_ad) q["null_ad"] = true;
             } else if (o.kind == OP_REKEY) { q["op"] = "rekey"; q["s"] = o.s; }
+            else if (o.kind == OP_GIANT_MSG) { q["op"] = "giant_message_roundtrip"; q["s"] = 0; q["mlen"] = o.mlen; }
             else if (o.kind == OP_GIANT) { q["op"] = "giant_ad_roundtrip"; q["s"] = 0; q["mlen"] = o.mlen; q["adlen"] = o.adlen; }
             else {
                 q["op"] = "deliver"; q["s"] = o.s; q["pick"] = o.pick; q["fault"] = fault_name[o.fault % F_NFAULTS];
@@ -614,8 +670,9 @@ struct C09 {
             o.align = (uint32_t) q.at("align").u64();
             if (k == "push") {
                 o.kind = OP_PUSH; o.tag = (int) q.at("tag").i64(); o.mlen = (uint32_t) q.at("mlen").u64(); o.adlen = (uint32_t) q.at("adlen").u64();
-                o.null_outlen = q.at("null_outlen").boolean(); o.null_ad = q.at("null_ad").boolean();
+                o.null_outlen = q.at("null_outlen").boolean(); o.null_ad = q.at("null_ad").boolean(); o.craft = q.at("craft_poly1305_edge").boolean();
             } else if (k == "rekey") o.kind = OP_REKEY;
+            else if (k == "giant_message_roundtrip") { o.kind = OP_GIANT_MSG; o.mlen = (uint32_t) q.at("mlen").u64(); }
             else if (k == "giant_ad_roundtrip") { o.kind = OP_GIANT; o.mlen = (uint32_t) q.at("mlen").u64(); o.adlen = (uint32_t) q.at("adlen").u64(); }
             else {
                 o.kind = OP_DELIVER; o.pick = (uint32_t) q.at("pick").u64();
